@@ -174,32 +174,33 @@ Lemma Forall2_length {X Y} (P : X -> Y -> Prop) a b : Forall2 P a b -> length a 
 Proof. induction 1; cbn; congruence. Qed.
 
 Section Fit.
+  Variable g : str -> bool.
   Hypothesis wrap_fits : forall t w ls, wrap t w = Ok ls -> Forall (fun l => zlen l <= w) ls.
   Hypothesis wrap_ok : forall t w, 1 <= w -> exists ls, wrap t w = Ok ls.
 
   Lemma wrap_cell_spec w cu cell len c' l' wrapped cu' :
-    wrap_cell w cu cell len = Ok (c', l', wrapped, cu') -> cell_ok len cell ->
+    wrap_cell g w cu cell len = Ok (c', l', wrapped, cu') -> cell_ok len cell ->
     cell_ok l' c' /\ 0 <= l' + Z.max 0 (- len) /\ (0 <= w -> l' <= w).
   Proof.
     unfold wrap_cell. intros H Hc. destruct (Z.ltb_spec w len) as [E|E].
-    - destruct (wrap cell w) as [ls|k] eqn:W; cbn [bind] in H; [|discriminate]. injection H as <- <- <- <-.
+    - destruct (g cell); [discriminate|]. destruct (wrap cell w) as [ls|k] eqn:W; cbn [bind] in H; [|discriminate]. injection H as <- <- <- <-.
       split; [apply cell_ok_max|]. split; [pose proof (zmax_list_nonneg (map zlen (split_on 10%N (join_with 10%N ls)))); unfold max_line_len; lia|].
       intros Hw. unfold max_line_len. apply zmax_list_le; [exact Hw|]. apply Forall_forall. intros x Hx. apply in_map_iff in Hx as (p & <- & Hp).
       pose proof (split_join_le 10%N w ls Hw (wrap_fits _ _ _ W)) as F. rewrite Forall_forall in F. apply F, Hp.
     - injection H as <- <- <- <-. split; [exact Hc|]. split; lia.
   Qed.
-  Lemma wrap_cell_ok w cu cell len : 1 <= w -> exists r, wrap_cell w cu cell len = Ok r.
+  Lemma wrap_cell_ok w cu cell len : 1 <= w -> exists r, wrap_cell (fun _ => false) w cu cell len = Ok r.
   Proof. intros Hw. unfold wrap_cell. destruct (w <? len); [|eauto]. destruct (wrap_ok cell w Hw) as [ls ->]. cbn [bind]. eauto. Qed.
 
   Lemma wrap_col_spec col w : forall rows lens wr cu rs ls wr' cu',
-    wrap_col col w rows lens wr cu = Ok (rs, ls, wr', cu') -> Forall2 row_ok rows lens ->
+    wrap_col g col w rows lens wr cu = Ok (rs, ls, wr', cu') -> Forall2 row_ok rows lens ->
     Forall2 row_ok rs ls /\ Forall2 (fun ln' ln => exists l', ln' = set_nth col l' ln /\ (0 <= w -> l' <= w)) ls lens.
   Proof.
     induction rows as [|row rows IH]; intros lens wr cu rs ls wr' cu' H HR.
     - inversion HR; subst. cbn in H. injection H as <- <- <- <-. split; constructor.
     - inversion HR as [|? ln ? lens' Hrow Hrest]; subst. cbn [wrap_col] in H.
-      destruct (wrap_cell w cu (nth col row []) (nth col ln 0)) as [[[[c' l'] wrapped] cu1]|k] eqn:WC; cbn [bind] in H; [|discriminate].
-      destruct (wrap_col col w rows lens' (wr || wrapped) cu1) as [[[[rs1 ls1] wr1] cu2]|k] eqn:WR; cbn [bind] in H; [|discriminate].
+      destruct (wrap_cell g w cu (nth col row []) (nth col ln 0)) as [[[[c' l'] wrapped] cu1]|k] eqn:WC; cbn [bind] in H; [|discriminate].
+      destruct (wrap_col g col w rows lens' (wr || wrapped) cu1) as [[[[rs1 ls1] wr1] cu2]|k] eqn:WR; cbn [bind] in H; [|discriminate].
       injection H as <- <- <- <-.
       destruct (IH _ _ _ _ _ _ _ WR Hrest) as [A1 A2].
       assert (Hc : cell_ok (nth col ln 0) (nth col row [])).
@@ -210,7 +211,7 @@ Section Fit.
       + apply Forall2_set_nth; assumption.
       + exists l'. split; [reflexivity|exact B2].
   Qed.
-  Lemma wrap_col_ok col w : 1 <= w -> forall rows lens wr cu, exists r, wrap_col col w rows lens wr cu = Ok r.
+  Lemma wrap_col_ok col w : 1 <= w -> forall rows lens wr cu, exists r, wrap_col (fun _ => false) col w rows lens wr cu = Ok r.
   Proof.
     intros Hw. induction rows as [|row rows IH]; intros lens wr cu; [cbn; eauto|]. destruct lens as [|ln lens]; [cbn; eauto|]. cbn [wrap_col].
     destruct (wrap_cell_ok w cu (nth col row []) (nth col ln 0) Hw) as [[[[c' l'] wrapped] cu1] ->]. cbn [bind].
@@ -219,11 +220,11 @@ Section Fit.
 
   Lemma col_max_nonneg col ls : 0 <= col_max col ls. Proof. apply zmax_list_nonneg. Qed.
 
-  Lemma fit_column_spec n col w st st' : INV n st -> (col < n)%nat -> fit_column col w st = Ok st' ->
+  Lemma fit_column_spec n col w st st' : INV n st -> (col < n)%nat -> fit_column g col w st = Ok st' ->
     INV n st' /\ exists m, f_cols st' = set_nth col m (f_cols st) /\ 0 <= m /\ (0 <= w -> m <= w).
   Proof.
     intros [I1 I2 I3 I4] Hcol H. unfold fit_column in H.
-    destruct (wrap_col col w (f_rows st) (f_lens st) (f_wraps st) (f_cuts st)) as [[[[rs ls] wr] cu]|k] eqn:WR; cbn [bind] in H; [|discriminate].
+    destruct (wrap_col g col w (f_rows st) (f_lens st) (f_wraps st) (f_cuts st)) as [[[[rs ls] wr] cu]|k] eqn:WR; cbn [bind] in H; [|discriminate].
     injection H as <-. cbn [f_rows f_lens f_cols].
     destruct (wrap_col_spec _ _ _ _ _ _ _ _ _ _ WR I1) as [A1 A2].
     split.
@@ -248,7 +249,7 @@ Section Fit.
       assert (length b = length (f_cols st)) by (apply (Forall2_length _ _ _ Hb)).
       rewrite nth_set_nth_same by lia. auto.
   Qed.
-  Lemma fit_column_ok col w st : 1 <= w -> exists st', fit_column col w st = Ok st'.
+  Lemma fit_column_ok col w st : 1 <= w -> exists st', fit_column (fun _ => false) col w st = Ok st'.
   Proof. intros Hw. unfold fit_column. destruct (wrap_col_ok col w Hw (f_rows st) (f_lens st) (f_wraps st) (f_cuts st)) as [[[[rs ls] wr] cu] ->]. cbn [bind]. eauto. Qed.
 End Fit.
 
@@ -267,7 +268,7 @@ Section Distribute.
   Lemma distribute_spec n av : forall long col actual rem st,
     INV n st -> (col + length long = n)%nat -> agree long col (f_cols st) -> long_pos long ->
     sum_some long <= actual -> count_some long <= rem ->
-    exists st', distribute share av long col actual rem st = Ok st' /\ INV n st' /\
+    exists st', distribute (fun _ => false) share av long col actual rem st = Ok st' /\ INV n st' /\
       exists rem', 0 <= rem' /\ zsum (f_cols st') + rem' = zsum (f_cols st) - sum_some long + rem.
   Proof.
     induction long as [|[len|] r IH]; intros col actual rem st HI Hlen Hag Hpos Hact Hrem; cbn [distribute].
@@ -283,7 +284,7 @@ Section Distribute.
       { unfold w. destruct (Z.eqb_spec (count_some r) 0) as [E|E]; [reflexivity|]. destruct (Z.eqb_spec actual 0); [lia|reflexivity]. }
       rewrite Hwe. cbn [bind].
       destruct (fit_column_ok wrap_ok col w st (proj1 Hw)) as [st1 F1]. rewrite F1. cbn [bind].
-      destruct (fit_column_spec wrap_fits n col w st st1 HI ltac:(lia) F1) as (HI1 & m & Hcols & Hm0 & Hmw).
+      destruct (fit_column_spec (fun _ => false) wrap_fits n col w st st1 HI ltac:(lia) F1) as (HI1 & m & Hcols & Hm0 & Hmw).
       assert (Hcl : (col < length (f_cols st))%nat) by (rewrite (inv_len _ _ HI); lia).
       assert (Hnew : nth col (f_cols st1) 0 = m) by (rewrite Hcols; apply nth_set_nth_same; exact Hcl).
       rewrite Hnew.
@@ -300,7 +301,7 @@ Section Distribute.
 End Distribute.
 
 (* ---------------------------------------------------------------- the initial state *)
-Lemma chunk_lengths n : forall fuel l, Forall (fun r => (length r <= n)%nat) (chunk fuel n l).
+Lemma chunk_lengths {X} n : forall fuel (l : list X), Forall (fun r => (length r <= n)%nat) (chunk fuel n l).
 Proof. induction fuel as [|f IH]; intros l; cbn [chunk]; [constructor|]. destruct l as [|c l]; [constructor|].
   constructor; [rewrite firstn_length; lia|apply IH]. Qed.
 Lemma pad_row_length n r : (length r <= n)%nat -> length (pad_row n r) = n.
@@ -352,6 +353,22 @@ Proof.
     clear Heqz. induction A1 as [|x y a b Hxy _ IH]; constructor; inversion Hz; subst; [lia|auto].
 Qed.
 
+(* the lengths handed in are the lengths: the state of the tag-free model *)
+Lemma chunk_map {X Y} (f : X -> Y) n : forall fuel l, chunk fuel n (map f l) = map (map f) (chunk fuel n l).
+Proof.
+  induction fuel as [|fu IH]; intros l; cbn [chunk]; [reflexivity|]. destruct l as [|x l]; [reflexivity|].
+  cbn [map]. rewrite <- (map_cons f x l), firstn_map, skipn_map, IH. reflexivity.
+Qed.
+Lemma pad_lens_zlen n r : pad_lens n (map zlen r) = map zlen (pad_row n r).
+Proof. unfold pad_lens, pad_row. rewrite map_app, map_length. f_equal. induction (n - length r)%nat; cbn; congruence. Qed.
+Lemma init_state_l_zlen n cells : init_state_l n cells (map zlen cells) = init_state n cells.
+Proof.
+  unfold init_state_l, init_state.
+  assert (E : map (pad_lens n) (chunk (length (map zlen cells)) n (map zlen cells)) = map (map zlen) (map (pad_row n) (chunk (length cells) n cells))).
+  { rewrite map_length, chunk_map, !map_map. apply map_ext. intros r. apply pad_lens_zlen. }
+  rewrite E. reflexivity.
+Qed.
+
 (* ---------------------------------------------------------------- fit *)
 Lemma count_some_map_Some l : count_some (map Some l) = Z.of_nat (length l).
 Proof. induction l as [|x l IH]; [reflexivity|]. cbn [map length]. csimp. lia. Qed.
@@ -363,17 +380,17 @@ Section FitSpec.
   Hypothesis wrap_ok : forall t w, 1 <= w -> exists ls, wrap t w = Ok ls.
   Variable share : Z -> Z -> Z -> Z.
 
-  Theorem fit_spec max_total n cells : (1 <= n)%nat -> Z.of_nat n <= max_total ->
-    exists st, fit share max_total n cells = Ok st /\ INV n st /\ zsum (f_cols st) <= max_total.
+  Theorem fit_g_spec max_total n cells : (1 <= n)%nat -> Z.of_nat n <= max_total ->
+    exists st, fit_g (fun _ => false) share max_total n cells (map zlen cells) = Ok st /\ INV n st /\ zsum (f_cols st) <= max_total.
   Proof.
-    intros Hn Hg. unfold fit.
-    destruct (init_state n (map t_rstrip cells)) as [st0|k] eqn:E0.
+    intros Hn Hg. unfold fit_g. rewrite init_state_l_zlen.
+    destruct (init_state n cells) as [st0|k] eqn:E0.
     2:{ exfalso. unfold init_state in E0. destruct n; [lia|discriminate]. }
     cbn [bind]. pose proof (init_state_inv _ _ _ E0) as HI.
     destruct (Z.leb_spec (zsum (f_cols st0)) max_total) as [Hfit|Hfit]; [eauto|].
     destruct n as [|n']; [lia|]. remember (S n') as n eqn:En. assert (Hn1 : 0 < Z.of_nat n) by lia.
-    replace (match n with O => Err (Other 9) | S _ => match short_loop (S n) (Z.of_nat n) (map Some (f_cols st0)) max_total with None => Err (Other 8) | Some (av, long) => distribute share av long 0 (sum_some long) av st0 end end)
-      with (match short_loop (S n) (Z.of_nat n) (map Some (f_cols st0)) max_total with None => Err (Other 8) | Some (av, long) => distribute share av long 0 (sum_some long) av st0 end) by (subst n; reflexivity).
+    replace (match n with O => Err (Other 9) | S _ => match short_loop (S n) (Z.of_nat n) (map Some (f_cols st0)) max_total with None => Err (Other 8) | Some (av, long) => distribute (fun _ => false) share av long 0 (sum_some long) av st0 end end)
+      with (match short_loop (S n) (Z.of_nat n) (map Some (f_cols st0)) max_total with None => Err (Other 8) | Some (av, long) => distribute (fun _ => false) share av long 0 (sum_some long) av st0 end) by (subst n; reflexivity).
     assert (Hnn : long_nonneg (map Some (f_cols st0))).
     { pose proof (inv_nonneg _ _ HI) as F. unfold long_nonneg. clear -F. induction F; cbn [map]; constructor; auto. }
     destruct (short_loop_spec (Z.of_nat n) max_total ltac:(lia) (S n) (map Some (f_cols st0)) max_total Hnn ltac:(lia))
@@ -398,6 +415,9 @@ Section FitSpec.
       as (st & D & HI' & rem' & Hr' & Hs).
     exists st. split; [exact D|]. split; [exact HI'|]. lia.
   Qed.
+  Theorem fit_spec max_total n cells : (1 <= n)%nat -> Z.of_nat n <= max_total ->
+    exists st, fit share max_total n cells = Ok st /\ INV n st /\ zsum (f_cols st) <= max_total.
+  Proof. intros Hn Hg. exact (fit_g_spec max_total n (map t_rstrip cells) Hn Hg). Qed.
 
   (* every line of every cell fits its column *)
   Definition cells_fit (st : fitst) : Prop :=
@@ -433,7 +453,7 @@ Lemma pad_cell_len pad a w line : zlen pad = 1 -> zlen line <= w ->
   exists x, pad_cell pad a w line = Some x /\ zlen x = w.
 Proof.
   intros Hp Hl. unfold pad_cell. destruct (Z.ltb_spec (w - zlen line) 0) as [E|E]; [lia|].
-  eexists. split; [reflexivity|].
+  eexists. split; [reflexivity|]. unfold fill.
   pose proof (Z.div_pos (w - zlen line) 2 E ltac:(lia)). pose proof (Z.div_le_upper_bound (w - zlen line) 2 (w - zlen line) ltac:(lia) ltac:(lia)).
   destruct (a =? 0); [|destruct (a =? 1)]; rewrite ?zlen_app, ?zlen_rep, Hp; lia.
 Qed.
@@ -545,24 +565,29 @@ Section TableRect.
   Variable share : Z -> Z -> Z -> Z.
 
   (* rendering succeeds whenever every column can have one character (and no more alignments are set than there are columns) *)
+  Theorem render_pure_total s n header cells W ind : (1 <= n)%nat -> Z.of_nat n <= available_width s W ind (Z.of_nat n) ->
+    (length (t_aligns s) <= n)%nat -> exists r, render_pure (fun _ => false) share s n header cells (map zlen cells) W ind = Ok r.
+  Proof.
+    intros Hn Hg Hal. unfold render_pure.
+    destruct (fit_g_spec wrap_fits wrap_ok share _ n cells Hn Hg) as (st & -> & HI & _). cbn [bind].
+    unfold alignments. rewrite (inv_len _ _ HI). destruct (Nat.ltb_spec n (length (t_aligns s))) as [E|E]; [lia|]. cbn [bind]. eauto.
+  Qed.
   Theorem render_total s n header rows W ind : (1 <= n)%nat -> Z.of_nat n <= available_width s W ind (Z.of_nat n) ->
     (length (t_aligns s) <= n)%nat -> exists r, render_table share s n header rows W ind = Ok r.
   Proof.
-    intros Hn Hg Hal. unfold render_table. destruct rows as [|r0 rows]; [eauto|].
-    destruct (fit_spec wrap_fits wrap_ok share _ n (header ++ concat (r0 :: rows)) Hn Hg) as (st & -> & HI & _). cbn [bind].
-    unfold alignments. rewrite (inv_len _ _ HI). destruct (Nat.ltb_spec n (length (t_aligns s))) as [E|E]; [lia|]. cbn [bind]. eauto.
+    intros Hn Hg Hal. unfold render_table. destruct rows as [|r0 rows]; [eauto|]. apply render_pure_total; assumption.
   Qed.
 
-  Theorem table_rect s n header rows W ind st text : wf_style s -> (1 <= n)%nat -> 0 <= ind -> rows <> [] ->
+  Theorem table_rect_pure s n header cells W ind st text : wf_style s -> (1 <= n)%nat -> 0 <= ind ->
     Z.of_nat n <= available_width s W ind (Z.of_nat n) ->
-    render_table share s n header rows W ind = Ok (st, text) ->
+    render_pure (fun _ => false) share s n header cells (map zlen cells) W ind = Ok (st, text) ->
     rect (full_width s (f_cols st) ind) text /\ full_width s (f_cols st) ind <= W /\ cells_fit st /\ length (f_cols st) = n.
   Proof.
-    intros Hwf Hn Hind Hrows Hg H. unfold render_table in H. destruct rows as [|r0 rows]; [congruence|].
-    destruct (fit_spec wrap_fits wrap_ok share _ n (header ++ concat (r0 :: rows)) Hn Hg) as (st0 & F & HI & Hsum).
+    intros Hwf Hn Hind Hg H. unfold render_pure in H.
+    destruct (fit_g_spec wrap_fits wrap_ok share _ n cells Hn Hg) as (st0 & F & HI & Hsum).
     rewrite F in H. cbn [bind] in H.
     destruct (alignments s (length (f_cols st0))) as [al|k] eqn:A; cbn [bind] in H; [|discriminate].
-    injection H as <- <-. pose proof (alignments_length _ _ _ A) as Hal.
+    injection H as <- <-. pose proof (alignments_length _ _ _ A) as Hal. unfold draw_table.
     pose proof (inv_cells_fit _ _ HI) as CF. pose proof (inv_len _ _ HI) as Hlen. pose proof (inv_nonneg _ _ HI) as Hnn.
     assert (Hne : f_cols st0 <> []) by (destruct (f_cols st0); [cbn in Hlen; lia|congruence]).
     pose proof Hwf as (Hp & Hfmt & B1 & B2 & B3).
@@ -582,6 +607,14 @@ Section TableRect.
         destruct header; [exact Hin|]. destruct (f_rows st0); [destruct Hin|right; exact Hin].
       + apply draw_border_rect; assumption.
     - unfold full_width. rewrite zsum_map_add, Hlen. unfold available_width, border_width in *. lia.
+  Qed.
+  Theorem table_rect s n header rows W ind st text : wf_style s -> (1 <= n)%nat -> 0 <= ind -> rows <> [] ->
+    Z.of_nat n <= available_width s W ind (Z.of_nat n) ->
+    render_table share s n header rows W ind = Ok (st, text) ->
+    rect (full_width s (f_cols st) ind) text /\ full_width s (f_cols st) ind <= W /\ cells_fit st /\ length (f_cols st) = n.
+  Proof.
+    intros Hwf Hn Hind Hrows Hg H. unfold render_table in H. destruct rows as [|r0 rows]; [congruence|].
+    eapply table_rect_pure; eauto.
   Qed.
 End TableRect.
 
@@ -615,12 +648,13 @@ Lemma rstrip_same_text c : same_text (t_rstrip c) c.
 Proof. unfold same_text, t_rstrip. rewrite rstrip_rev_same, rev_involutive. reflexivity. Qed.
 
 Section Keeps.
+  Variable g : str -> bool.
   Hypothesis wrap_keeps : forall t w ls, wrap t w = Ok ls -> filter nsp (concat ls) = filter nsp (munge t).
 
-  Lemma wrap_cell_keeps w cu cell len c' l' wrapped cu' : wrap_cell w cu cell len = Ok (c', l', wrapped, cu') -> same_text c' cell.
+  Lemma wrap_cell_keeps w cu cell len c' l' wrapped cu' : wrap_cell g w cu cell len = Ok (c', l', wrapped, cu') -> same_text c' cell.
   Proof.
     unfold wrap_cell. destruct (w <? len).
-    - destruct (wrap cell w) as [ls|k] eqn:W; cbn [bind]; [|discriminate]. intros H; injection H as <- _ _ _.
+    - destruct (g cell); [discriminate|]. destruct (wrap cell w) as [ls|k] eqn:W; cbn [bind]; [|discriminate]. intros H; injection H as <- _ _ _.
       unfold same_text. rewrite filter_join_nl, (wrap_keeps _ _ _ W). apply munge_same_text.
     - intros H; injection H as <- _ _ _. reflexivity.
   Qed.
@@ -640,52 +674,53 @@ Section Keeps.
     - reflexivity.
   Qed.
   Lemma wrap_col_keeps col w : forall rows lens wr cu rs ls wr' cu',
-    wrap_col col w rows lens wr cu = Ok (rs, ls, wr', cu') -> rows_same rs (firstn (length lens) rows).
+    wrap_col g col w rows lens wr cu = Ok (rs, ls, wr', cu') -> rows_same rs (firstn (length lens) rows).
   Proof.
     induction rows as [|row rows IH]; intros lens wr cu rs ls wr' cu' H.
     - cbn in H. injection H as <- _ _ _. rewrite firstn_nil. constructor.
     - destruct lens as [|ln lens]; cbn [wrap_col] in H.
       + injection H as <- _ _ _. constructor.
-      + destruct (wrap_cell w cu (nth col row []) (nth col ln 0)) as [[[[c' l'] wrapped] cu1]|k] eqn:WC; cbn [bind] in H; [|discriminate].
-        destruct (wrap_col col w rows lens (wr || wrapped) cu1) as [[[[rs1 ls1] wr1] cu2]|k] eqn:WR; cbn [bind] in H; [|discriminate].
+      + destruct (wrap_cell g w cu (nth col row []) (nth col ln 0)) as [[[[c' l'] wrapped] cu1]|k] eqn:WC; cbn [bind] in H; [|discriminate].
+        destruct (wrap_col g col w rows lens (wr || wrapped) cu1) as [[[[rs1 ls1] wr1] cu2]|k] eqn:WR; cbn [bind] in H; [|discriminate].
         injection H as <- _ _ _. cbn [length firstn]. constructor; [|eapply IH; eauto].
         apply set_nth_same_text. eapply wrap_cell_keeps; eauto.
   Qed.
-  Lemma fit_column_keeps n col w st st' : INV n st -> fit_column col w st = Ok st' -> rows_same (f_rows st') (f_rows st).
+  Lemma fit_column_keeps n col w st st' : INV n st -> fit_column g col w st = Ok st' -> rows_same (f_rows st') (f_rows st).
   Proof.
     intros HI H. unfold fit_column in H.
-    destruct (wrap_col col w (f_rows st) (f_lens st) (f_wraps st) (f_cuts st)) as [[[[rs ls] wr] cu]|k] eqn:WR; cbn [bind] in H; [|discriminate].
+    destruct (wrap_col g col w (f_rows st) (f_lens st) (f_wraps st) (f_cuts st)) as [[[[rs ls] wr] cu]|k] eqn:WR; cbn [bind] in H; [|discriminate].
     injection H as <-. cbn [f_rows]. pose proof (wrap_col_keeps _ _ _ _ _ _ _ _ _ _ WR) as K.
     rewrite <- (Forall2_length _ _ _ (inv_rows _ _ HI)), firstn_all in K. exact K.
   Qed.
 End Keeps.
 
 Section KeepsFit.
+  Variable g : str -> bool.
   Hypothesis wrap_fits : forall t w ls, wrap t w = Ok ls -> Forall (fun l => zlen l <= w) ls.
   Hypothesis wrap_keeps : forall t w ls, wrap t w = Ok ls -> filter nsp (concat ls) = filter nsp (munge t).
   Variable share : Z -> Z -> Z -> Z.
 
   Lemma distribute_keeps n av : forall long col actual rem st st', INV n st -> (col + length long = n)%nat ->
-    distribute share av long col actual rem st = Ok st' -> rows_same (f_rows st') (f_rows st).
+    distribute g share av long col actual rem st = Ok st' -> rows_same (f_rows st') (f_rows st).
   Proof.
     induction long as [|[len|] r IH]; intros col actual rem st st' HI Hlen H; cbn [distribute length] in *.
     - injection H as <-. apply rows_same_refl.
     - destruct (if count_some r =? 0 then Ok rem else if actual =? 0 then Err (Other 9)
                 else Ok (Z.max 1 (Z.min (share len actual av) (rem - count_some r)))) as [w|k]; cbn [bind] in H; [|discriminate].
-      destruct (fit_column col w st) as [st1|k] eqn:F1; cbn [bind] in H; [|discriminate].
-      destruct (fit_column_spec wrap_fits n col w st st1 HI ltac:(lia) F1) as (HI1 & _).
+      destruct (fit_column g col w st) as [st1|k] eqn:F1; cbn [bind] in H; [|discriminate].
+      destruct (fit_column_spec g wrap_fits n col w st st1 HI ltac:(lia) F1) as (HI1 & _).
       eapply rows_same_trans; [eapply (IH (S col)); [exact HI1|lia|exact H]|].
       eapply fit_column_keeps; eauto.
     - eapply (IH (S col)); [exact HI|lia|exact H].
   Qed.
 
-  Theorem fit_keeps max_total n cells st : (1 <= n)%nat -> fit share max_total n cells = Ok st ->
-    rows_same (f_rows st) (map (pad_row n) (chunk (length (map t_rstrip cells)) n (map t_rstrip cells))).
+  Theorem fit_g_keeps max_total n cells st : (1 <= n)%nat -> fit_g g share max_total n cells (map zlen cells) = Ok st ->
+    rows_same (f_rows st) (map (pad_row n) (chunk (length cells) n cells)).
   Proof.
-    intros Hn H. unfold fit in H.
-    destruct (init_state n (map t_rstrip cells)) as [st0|k] eqn:E0; cbn [bind] in H; [|discriminate].
+    intros Hn H. unfold fit_g in H. rewrite init_state_l_zlen in H.
+    destruct (init_state n cells) as [st0|k] eqn:E0; cbn [bind] in H; [|discriminate].
     pose proof (init_state_inv _ _ _ E0) as HI.
-    assert (R0 : f_rows st0 = map (pad_row n) (chunk (length (map t_rstrip cells)) n (map t_rstrip cells))).
+    assert (R0 : f_rows st0 = map (pad_row n) (chunk (length cells) n cells)).
     { unfold init_state in E0. destruct n; [lia|]. injection E0 as <-. reflexivity. }
     rewrite <- R0. destruct (zsum (f_cols st0) <=? max_total); [injection H as <-; apply rows_same_refl|].
     destruct n as [|n']; [lia|].
@@ -739,27 +774,36 @@ Section KeepsTable.
   Hypothesis wrap_fits : forall t w ls, wrap t w = Ok ls -> Forall (fun l => zlen l <= w) ls.
   Hypothesis wrap_keeps : forall t w ls, wrap t w = Ok ls -> filter nsp (concat ls) = filter nsp (munge t).
   Variable share : Z -> Z -> Z -> Z.
+  (* on right-stripped cells: the wrapped rows are the cells laid out n per row *)
+  Theorem table_keeps_pure g s n header (X : list (list str)) W ind st text : (1 <= n)%nat ->
+    Forall (fun r => length r = n) X ->
+    render_pure g share s n header (concat X) (map zlen (concat X)) W ind = Ok (st, text) ->
+    rows_same (f_rows st) X.
+  Proof.
+    intros Hn HX H. unfold render_pure in H.
+    destruct (fit_g g share (available_width s W ind (Z.of_nat n)) n (concat X) (map zlen (concat X))) as [st0|k] eqn:F; cbn [bind] in H; [|discriminate].
+    destruct (alignments s (length (f_cols st0))) as [al|k]; cbn [bind] in H; [|discriminate]. injection H as <- _.
+    pose proof (fit_g_keeps g wrap_fits wrap_keeps share _ _ _ _ Hn F) as K.
+    rewrite chunk_concat in K; auto.
+    - replace (map (pad_row n) X) with X in K; [exact K|].
+      clear -HX. induction HX as [|r l Hr _ IH]; [reflexivity|]. cbn [map]. rewrite pad_row_full by exact Hr. f_equal. exact IH.
+    - (* enough fuel: every row holds at least one cell *)
+      clear -HX Hn. induction HX as [|r l Hr _ IH]; [cbn; lia|]. cbn [concat length]. rewrite app_length. lia.
+  Qed.
   Theorem table_keeps s n header rows W ind st text : (1 <= n)%nat -> rows <> [] ->
     Forall (fun r => length r = n) rows -> (header = [] \/ length header = n) ->
     render_table share s n header rows W ind = Ok (st, text) ->
     rows_same (f_rows st) (map (map t_rstrip) (match header with [] => rows | _ => header :: rows end)).
   Proof.
     intros Hn Hne Hrows Hhdr H. unfold render_table in H. destruct rows as [|r0 rows]; [congruence|].
-    destruct (fit share (available_width s W ind (Z.of_nat n)) n (header ++ concat (r0 :: rows))) as [st0|k] eqn:F; cbn [bind] in H; [|discriminate].
-    destruct (alignments s (length (f_cols st0))) as [al|k]; cbn [bind] in H; [|discriminate]. injection H as <- _.
-    pose proof (fit_keeps wrap_fits wrap_keeps share _ _ _ _ Hn F) as K.
     set (X := match header with [] => r0 :: rows | _ => header :: r0 :: rows end).
     assert (HX : Forall (fun r => length r = n) X).
     { unfold X. destruct header as [|h hs]; [exact Hrows|]. constructor; [destruct Hhdr; [discriminate|assumption]|exact Hrows]. }
     assert (EX : header ++ concat (r0 :: rows) = concat X) by (unfold X; destruct header; reflexivity).
-    rewrite EX, concat_map in K.
+    rewrite EX, concat_map in H.
     assert (HX' : Forall (fun r => length r = n) (map (map t_rstrip) X)).
     { clear -HX. induction HX; cbn [map]; constructor; auto. rewrite map_length. assumption. }
-    rewrite chunk_concat in K; auto.
-    - replace (map (pad_row n) (map (map t_rstrip) X)) with (map (map t_rstrip) X) in K; [exact K|].
-      clear -HX'. induction HX' as [|r l Hr _ IH]; [reflexivity|]. cbn [map]. rewrite pad_row_full by exact Hr. f_equal. exact IH.
-    - (* enough fuel: every row holds at least one cell *)
-      clear -HX' Hn. induction HX' as [|r l Hr _ IH]; [cbn; lia|]. cbn [concat length]. rewrite app_length. lia.
+    exact (table_keeps_pure _ s n header _ W ind st text Hn HX' H).
   Qed.
 End KeepsTable.
 
